@@ -41,6 +41,11 @@ func sameAsRef(got *boc.Cell, want *ref.RCell, what string) error {
 		}
 		return fmt.Errorf("%s: encoding differs from the schema: %v\ntongo root: %s\nschema root: x{%s} +%d refs", what, err, have, want.Bits().FiftHex(), len(want.Refs))
 	}
+	// the same bits and references hash to the same value (the hash is taken over the stored bytes, so bits
+	// that sit behind the end of a cell's data in its buffer would show here and nowhere else)
+	if h, err := cp.Hash(); err != nil || !bytes.Equal(h, want.ReprHash()) {
+		return fmt.Errorf("%s: the produced cell reads as the schema prescribes (x{%s} +%d refs) but hashes to %x (%v), the prescribed cell to %x", what, want.Bits().FiftHex(), len(want.Refs), h, err, want.ReprHash())
+	}
 	return nil
 }
 
